@@ -1257,6 +1257,8 @@ class Executor:
                 raise GoPanic('index', 'index %d out of range [0,%d)' % (si, n), ins.get('pos', ''))
             return si
         w = i.size()
+        if n >= (1 << w):       # every value of the index type is in range (e.g. a uint8 index into 256 entries)
+            return self.concretize(i, 0, (1 << w) - 1, 'index')
         inr = z3.ULT(i, z3.BitVecVal(n, w))
         if not self.decide(inr):
             raise GoPanic('index', 'symbolic index out of range [0,%d)' % n, ins.get('pos', ''))
